@@ -671,7 +671,8 @@ theorem doList_unlimited (c : Cfg) (hsplit : c.splits = []) (s : BState) {recs :
       .ok { hdr := hdrOf s.committed (scanRecs (if R == 0 then s.committed else R) (recs.filter (inRange a b))),
             more := false,
             kvs := scanRecs (if R == 0 then s.committed else R) (recs.filter (inRange a b)) } := by
-  simp [doList, not_isEmpty_of_lt hab, hab, hstore, scanParts_encodeStore c hsplit hk ha hb hab]
+  simp [doList, not_isEmpty_of_lt hab, hab, hstore, encodeBound_of_alphabet ha, encodeBound_of_alphabet hb,
+    scanParts_encodeStore c hsplit hk ha hb hab]
 
 theorem doList_limited (c : Cfg) (s : BState) {recs : List Rec}
     (hstore : s.store = encodeStore recs) (hk : ∀ r ∈ recs, Alphabet r.key ∧ r.rev < 2 ^ 64)
@@ -680,7 +681,8 @@ theorem doList_limited (c : Cfg) (s : BState) {recs : List Rec}
       .ok { hdr := hdrOf s.committed ((scanRecs (if R == 0 then s.committed else R) (recs.filter (inRange a b))).take n),
             more := decide (n < (scanRecs (if R == 0 then s.committed else R) (recs.filter (inRange a b))).length),
             kvs := (scanRecs (if R == 0 then s.committed else R) (recs.filter (inRange a b))).take n } := by
-  simp only [doList, not_isEmpty_of_lt hab, hab, hstore, scanLimited_encodeStore c hk ha hb hab]
+  simp only [doList, not_isEmpty_of_lt hab, hab, hstore, encodeBound_of_alphabet ha, encodeBound_of_alphabet hb,
+    scanLimited_encodeStore c hk ha hb hab]
   have hmin : min n (n + 1) = n := by omega
   simp only [Bool.false_eq_true, if_false, bne_self_eq_false, gt_iff_lt, hn, if_true, List.length_take,
     List.take_take, hmin]
@@ -691,6 +693,7 @@ theorem doCount_encodeStore (c : Cfg) (hsplit : c.splits = []) (hcompat : c.etcd
     {recs : List Rec} (hstore : s.store = encodeStore recs) (hk : ∀ r ∈ recs, Alphabet r.key ∧ r.rev < 2 ^ 64)
     {a b : Bytes} (ha : Alphabet a) (hb : Alphabet b) (hab : cmp a b = .lt) :
     doCount c s a b = .ok (s.committed, (scanRecs s.committed (recs.filter (inRange a b))).length) := by
-  simp [doCount, hcompat, hstore, scanParts_encodeStore c hsplit hk ha hb hab]
+  simp [doCount, hcompat, hstore, encodeBound_of_alphabet ha, encodeBound_of_alphabet hb,
+    scanParts_encodeStore c hsplit hk ha hb hab]
 
 end KB
